@@ -63,5 +63,6 @@ func (f *osLockFile) Unlock() error {
 	if err := os.Remove(f.path); err != nil {
 		return err
 	}
+	verifYield(3)
 	return f.Close()
 }
